@@ -55,6 +55,48 @@ def linked_law_needs_active_contact(ctx):
             rep.bad("C16.R7", C, ap, f"a friction law linked to a normal force is appended under `{weak[0] if weak else [t for t, p in gs]}`, which does not imply that its contact is in the "
                     f"active set `{active}`: for an open contact the searched local normal index is empty and the prox loop treats the law as a constant reservoir of size 1 "
                     "(friction force on an open contact)", f"{rel}:{ap.lineno}")
+    # marker protocol (after fix F40): a law kept for an inactive contact carries None instead of an index; whoever can receive it
+    # (a caller that passes `slice=` other than the literal True) must ask `is None` before `len(...)`
+    markers = [a for a in apps if isinstance(a.value.args[0].elts[0], ast.Constant) and a.value.args[0].elts[0].value is None]
+    if not markers:
+        return
+    for ap in markers:
+        gs = guards_of(ap, fn)
+        if any(not pol and (" in " + active) in t for (t, pol) in gs) or any(pol and ("not in " + active) in t for (t, pol) in gs):
+            rep.ok("C16.R7", C, "a law of an INACTIVE contact is kept with the marker None (zero normal force), never with an empty index")
+        else:
+            rep.bad("C16.R7", C, ap, "the marker None (inactive normal contact) is appended on a path that does not exclude an active contact", f"{rel}:{ap.lineno}")
+    for q, f in ctx.repo.module(rel).defs().items():
+        if not isinstance(f, ast.FunctionDef) or f is fn:
+            continue
+        calls = [c for c in ast.walk(f) if isinstance(c, ast.Call) and (dotted(c.func) or "").split(".")[-1] == "compute_I_F"]
+        unsliced = [c for c in calls if any(k.arg == "slice" and not (isinstance(k.value, ast.Constant) and k.value.value is True) for k in c.keywords) or len(c.args) > 2]
+        if not unsliced:
+            continue
+        Cq = f"{rel}:{q}"
+        loops = [n for n in ast.walk(f) if isinstance(n, ast.For) and isinstance(n.target, ast.Tuple) and len(n.target.elts) == 3 and isinstance(n.target.elts[0], ast.Name)]
+        for lp in loops:
+            v = lp.target.elts[0].id
+            lens = [n for n in ast.walk(lp) if isinstance(n, ast.Call) and dotted(n.func) == "len" and n.args and isinstance(n.args[0], ast.Name) and n.args[0].id == v]
+            if not lens:
+                continue
+            for ln in lens:
+                gs = guards_of(ln, f)
+                # the len() test sits in the else / elif branch of `v is None`, or under `v is not None`
+                from ..model import parent
+                ok_ = any((not pol and t == f"{v} is None") or (pol and t == f"{v} is not None") for (t, pol) in gs)
+                p_ = parent(ln)
+                while p_ is not None and not isinstance(p_, ast.If):
+                    p_ = parent(p_)
+                if not ok_ and p_ is not None:
+                    pp = parent(p_)
+                    if isinstance(pp, ast.If) and p_ in pp.orelse and norm_src(pp.test) == f"{v} is None":
+                        ok_ = True
+                if ok_:
+                    rep.ok("C16.R7", Cq, f"`len({v})` is asked only after `{v} is None` (inactive contact: zero reservoir) has been excluded")
+                else:
+                    rep.bad("C16.R7", Cq, ln, f"this routine calls compute_I_F without slicing, so `{v}` can be the marker None of an inactive contact, but `len({v})` is evaluated without "
+                            f"excluding `{v} is None` first", f"{rel}:{ln.lineno}")
 
 
 def rejection_falsifiable(ctx, fn, C):
@@ -111,7 +153,9 @@ def rejection_falsifiable(ctx, fn, C):
                 rep.bad("C16.R10", C, defs[-1], f"`{S.id} = {norm_src(d)}` is one-sided: it holds for every `{norm_src(X)}` below zero, so `{norm_src(call)}` is always true and the assertion "
                         "cannot reject a penetrating / approaching contact (it is then treated as a persistent contact with la_N0 = weight)", f"{SB}:{defs[-1].lineno}")
     if n_ < 2:
-        raise AnalysisError(f"{C}: fewer than 2 rejection asserts of the form logical_or(X >= 0, set) found")
+        # whether the rejections exist at all is C16.R2's question (with its own floor); nothing to judge here
+        rep.ok("C16.R10", C, f"only {n_} rejection assert(s) of the form logical_or(X >= 0, set) found (no verdict; C16.R2 decides their presence)", verdict="unknown", trivial=True)
+        rep.ok("C16.R10", C, "see C16.R2", verdict="unknown", trivial=True)
 
 
 def fixed_point_gate(ctx, fn, C):
@@ -394,4 +438,11 @@ NEUTRAL = [
     dict(id="c16-n-r9", what="solution split through slices instead of array_split", file=SB,
          old="    u_dot0, la_g0, la_gamma0 = np.array_split(x0, split_x)\n",
          new="    u_dot0 = x0[: system.nu]\n    la_g0 = x0[system.nu : system.nu + system.nla_g]\n    la_gamma0 = x0[system.nu + system.nla_g :]\n"),
+]
+
+MUTANTS += [
+    dict(id="c16-r7-f40", canary=True, what="fix F40 reverted: an unsliced friction law of an open contact is appended with an empty local normal index (read as constant reservoir 1.0)", file='cardillo/solver/_base.py',
+         old='                if i_N_global in I_N:\n                    nla_F_local += n_F\n                    i_N_local = np.where(i_N_global == I_N)[0]\n                    I_F.extend(i_F_global)\n                    global_active_friction_laws.append(\n                        (i_N_local, i_F_local, force_reservoir)\n                    )\n                elif not slice:\n                    # friction law is kept although its normal contact is not\n                    # active: None marks the vanishing normal force (an empty\n                    # index would read as "no normal force dependence")\n                    nla_F_local += n_F\n                    I_F.extend(i_F_global)\n                    global_active_friction_laws.append(\n                        (None, i_F_local, force_reservoir)\n                    )\n', new='                if not slice or (i_N_global in I_N):\n                    nla_F_local += n_F\n                    i_N_local = np.where(i_N_global == I_N)[0]\n                    I_F.extend(i_F_global)\n                    global_active_friction_laws.append(\n                        (i_N_local, i_F_local, force_reservoir)\n                    )\n', expect="C16.R7"),
+    dict(id="c16-r7-consumer", what="consistent_initial_conditions.prox asks len(i_N) without excluding the marker None of an inactive contact", file='cardillo/solver/_base.py',
+         old='            if i_N is None:  # normal contact is not active: no normal force\n                la_Ni = 0.0\n            elif len(i_N) > 0:\n                la_Ni = la_N[i_N]\n', new='            if len(i_N) > 0:\n                la_Ni = la_N[i_N]\n', expect="C16.R7"),
 ]
